@@ -13,8 +13,10 @@ Refinement needed for soundness (calibration on the unchanged tree, see the fina
 0.05 the sub-leading term C_{m+1} lam can still be 20-50 % of the leading one at lam = 1/8 and, when of opposite
 phase, pulls the local exponent below n - 0.25 for *correct* code (exponents then rise towards n as lam decreases).
 So a first verdict "too small" is only accepted after following the scaling further towards zero (lam = 1/16,
-1/32, ... while usable): the verdict is taken from the smallest usable pair.  A genuine lower-order term keeps the
-exponent below n all the way down; a correct method passes as soon as the asymptotic regime is reached.
+1/32, ... while usable), and only if the last two exponents confirm the trend (see the comment in the code): a
+genuine lower-order term keeps the exponent below n all the way down; a correct method passes as soon as the
+asymptotic regime is reached; a sequence still rising towards n when the noise floor is hit decides nothing
+(status "undecided", counted as trivial).
 """
 
 import math
@@ -25,7 +27,7 @@ SLACK = 0.25
 
 
 def exponent_verdict(diff, n, floor):
-    """Return dict(status= 'ok' | 'low' | 'trivial', exponent=, lambdas=[..], D=[..])."""
+    """Return dict(status= 'ok' | 'low' | 'undecided' | 'trivial' | 'nan', exponent=, lambdas=[..], D=[..])."""
     lams = list(LAMBDAS)
     D = [diff(lam) for lam in lams]
     usable_min = 100.0 * floor
@@ -58,7 +60,21 @@ def exponent_verdict(diff, n, floor):
         i, j, p = last_pair()
         if p >= n - SLACK:
             return dict(status="ok", exponent=p, lambdas=lams, D=D)
-    return dict(status="low", exponent=p, lambdas=lams, D=D)
+    # The smallest usable pair still says "too small".  Accept that only if the trend confirms it: the next coarser
+    # pair must say the same (a single low pair next to a high one is the signature of a sign change of the
+    # difference, i.e. of pre-asymptotic behaviour), and with its exponent p_prev, 2 p - p_prev (linear extrapolation
+    # of the local exponent to lambda -> 0) must stay below n - 2 SLACK.
+    # A genuine lower-order term gives a flat or falling sequence (or one rising towards an integer <= n-1); correct
+    # code whose leading coefficient happens to be small gives a sequence still rising towards n when the noise floor
+    # stops the descent.  The latter decides nothing.
+    idx = [k for k, d in enumerate(D) if d >= usable_min and math.isfinite(d)]
+    if len(idx) < 3 or idx[-3:] != [idx[-1] - 2, idx[-1] - 1, idx[-1]]:
+        return dict(status="undecided", exponent=p, lambdas=lams, D=D)
+    h = idx[-3]
+    p_prev = math.log(D[h] / D[i]) / math.log(lams[h] / lams[i])
+    if p_prev < n - SLACK and 2.0 * p - p_prev < n - 2.0 * SLACK:
+        return dict(status="low", exponent=p, lambdas=lams, D=D)
+    return dict(status="undecided", exponent=p, lambdas=lams, D=D)
 
 
 def fmt(v):
